@@ -445,3 +445,55 @@ def plausible_ldata_frames(valid_apdus: list[bytes]):
         return bytes([code, len(add)]) + add + bytes([c1, c2]) + src.to_bytes(2, "big") + dst.to_bytes(2, "big") + bytes([len(tpdu) - 1]) + tpdu
 
     return build()
+
+
+def length_mismatch_ldata_frames(valid_apdus: list[bytes]):
+    """Otherwise plausible L_Data frames (EFF 0, reserved bit clear, TPCI valid for the address type) whose octet
+    count after the TPCI octet DISAGREES with the NPDU length field - data and control TPDUs, both directions:
+    control TPDU with length 0 and 1..4 surplus octets, control TPDU announcing n > 0 (with n, fewer or more octets),
+    data TPDU with the length field off by -4..+4 or with surplus / missing octets."""
+    apdu_s = st.one_of(st.sampled_from(valid_apdus), _RAW_APDU)
+    ctrl_octets = (0x80, 0x81) + tuple(0xC2 | s << 2 for s in range(16)) + tuple(0xC3 | s << 2 for s in range(16))
+    tail_s = st.one_of(st.integers(1, 4).map(bytes), st.binary(min_size=1, max_size=4))
+    delta_s = st.sampled_from((-4, -3, -2, -1, 1, 2, 3, 4))
+
+    @st.composite
+    def build(draw):
+        code = L_DATA_CODES[draw(st.integers(0, 2))]
+        add = draw(_ADDINFO)
+        c1 = draw(_CTRL1) & 0xBF
+        control = draw(st.integers(0, 2)) > 0
+        c2 = draw(_CTRL2) & 0xF0
+        if control:
+            c2 &= 0x7F  # control TPDUs need an individual destination to get past TPCI resolution
+        src = draw(u16)
+        dst = draw(_DST)
+        if control:
+            t = ctrl_octets[draw(st.integers(0, len(ctrl_octets) - 1))]
+            mode = draw(st.integers(0, 2))
+            tail = draw(tail_s)
+            if mode == 0:  # length 0, surplus octets
+                tpdu, length = bytes([t]) + tail, 0
+            elif mode == 1:  # length n > 0 with exactly n octets
+                tpdu, length = bytes([t]) + tail, len(tail)
+            else:  # length n > 0, octet count different
+                tpdu = bytes([t]) + (tail if draw(st.booleans()) else b"")
+                length = max(1, (len(tpdu) - 1 + draw(delta_s)) & 0xFF)
+        else:
+            octs = _GROUP_TPCI_OCTETS if c2 & 0x80 else _IND_TPCI_OCTETS[:4]
+            t = octs[draw(st.integers(0, len(octs) - 1))]
+            apdu = draw(apdu_s)
+            tpdu = bytes([t | (apdu[0] & 3)]) + apdu[1:]
+            true_len = len(tpdu) - 1
+            if draw(st.booleans()):  # length field wrong
+                length = (true_len + draw(delta_s)) & 0xFF
+                if length == true_len:
+                    length = (true_len + 1) & 0xFF
+            else:  # octets wrong
+                length = true_len & 0xFF
+                tpdu = tpdu + draw(tail_s) if draw(st.booleans()) or len(tpdu) < 3 else tpdu[: -draw(st.integers(1, min(2, len(tpdu) - 1)))]
+                if len(tpdu) - 1 == length:
+                    tpdu += b"\x00"
+        return bytes([code, len(add)]) + add + bytes([c1, c2]) + src.to_bytes(2, "big") + dst.to_bytes(2, "big") + bytes([length]) + tpdu
+
+    return build()
